@@ -14,6 +14,7 @@ FS == INSTANCE FooterScan WITH MaxTok <- 0, Big <- 1000000, toks <- <<>>
 AD == INSTANCE Adaptive WITH Den <- 8, MaxLen <- 0, MaxScore <- 0, Thresholds <- {}, MinResults <- {}, c <- 0
 SN == INSTANCE Snippet WITH Gap <- 20, MaxChars <- 0, Windows <- {}, Maxes <- {}, OccStarts <- {}, OccLens <- {}, MaxOcc <- 0, c <- 0
 CP == INSTANCE Capsule WITH MaxChunks <- 0, c <- 0
+CK == INSTANCE ChunkPlan WITH MaxLen <- 0, Sizes <- {}, Slacks <- {}, c <- 0
 CD == INSTANCE Codecs WITH U <- {}, MaxEntries <- 0, c <- 0
 QL == INSTANCE QueryLang WITH MaxDepth <- 128, BaseAtoms <- {}, AstDepth <- 0, ast <- 0, expl <- FALSE
 
@@ -92,6 +93,27 @@ CapsuleOk(i, o) ==
        /\ Chk("capsule.tamper_accepted", o.modified => ~o.ok)                           \* any modification makes unlock fail
        /\ DChk("capsule.model", o.ok = CP!Unlock(CP!CapOf(o.nchunks, i.tamper), o.nchunks)[1])
 
+(* ------------------------------- C34 ------------------------------------ *)
+\* mode C > 0: the naive planner on the text as given, chunk size C (slack = max(C / 5, 32) as in the code);
+\* mode C = 0: plan_text_chunks (normalisation, threshold 2400, chunk size 1200) - TLC is given the classes of the normalised text;
+\* structured documents: the statement's second sentence, evaluated by the harness on the real chunks (booleans)
+Max2C(a, b) == IF a > b THEN a ELSE b
+ChunkOk(i, o) ==
+  /\ NoPanic(o)
+  /\ ~Has(o, "panic") =>
+     IF Has(i, "doc")
+       THEN o.none \/ /\ Chk("chunk.structured.nonempty", o.no_empty /\ o.nchunks > 1 /\ o.nranges = o.nchunks /\ o.ranges_in_text)
+                       /\ Chk("chunk.structured.lines", o.lines_covered)
+       ELSE LET t == IF i.C > 0 THEN CK!Expand(i.text) ELSE CK!Expand(o.norm)
+                C == IF i.C > 0 THEN i.C ELSE 1200
+                S == Max2C(C \div 5, 32)
+                want == CK!Plan(t, C, S) IN
+            /\ Chk("chunk.total", o.total = Len(t))
+            /\ DChk("chunk.threshold", (i.C = 0 /\ Len(t) >= 2400) => ~o.none)       \* where the threshold lies is the planner's business: drift
+            /\ (~o.none => /\ Chk("chunk.partition", CK!Partition(o.ranges, Len(t)))
+                            /\ Chk("chunk.concat", i.C = 0 => (o.concat_ok /\ o.slices_ok)))
+            /\ DChk("chunk.model", IF o.none THEN (want = <<>> \/ (i.C = 0 /\ Len(t) < 2400)) ELSE o.ranges = want)
+
 (* ------------------------------- C30 ------------------------------------ *)
 \* The contract is C30's own statement (Chk); equality with the transcription beyond it is drift (DChk): a decoder that
 \* starts rejecting more, or an encoder that refuses more values, does not break the property.
@@ -138,6 +160,7 @@ Next == /\ l <= Len(Rec) /\ l' = l + 1
              [] Ev.ev = "query" -> QueryOk(Ev.in, Ev.out)
              [] Ev.ev = "capsule" -> CapsuleOk(Ev.in, Ev.out)
              [] Ev.ev = "codec" -> CodecOk(Ev.in, Ev.out)
+             [] Ev.ev = "chunk" -> ChunkOk(Ev.in, Ev.out)
              [] OTHER -> FALSE
 TraceSpec == Init /\ [][Next]_l
 
